@@ -1,0 +1,98 @@
+//go:build verif
+
+package pubsub
+
+import (
+	"sort"
+
+	"github.com/anyproto/any-sync/commonspace/pubsub/pubsubproto"
+	"github.com/anyproto/any-sync/net/streampool"
+)
+
+// Verification hooks (build tag `verif` only): thin exported wrappers around package-internal
+// types so that an external harness can drive the real patternTrie / dedup ring / sign encoding and
+// read the sizes of the serving-side bookkeeping. No behaviour is added or changed.
+
+// VerifTrie wraps the real patternTrie.
+type VerifTrie struct{ t *patternTrie }
+
+func VerifNewTrie() *VerifTrie                 { return &VerifTrie{t: newPatternTrie()} }
+func (v *VerifTrie) Add(pattern string) bool    { return v.t.Add(pattern) }
+func (v *VerifTrie) Remove(pattern string) bool { return v.t.Remove(pattern) }
+func (v *VerifTrie) Match(topic string) []string {
+	return v.t.Match(topic, nil)
+}
+func (v *VerifTrie) Len() int    { return v.t.Len() }
+func (v *VerifTrie) Empty() bool { return v.t.root.empty() }
+
+// VerifSplitTopic exposes splitTopic (copying the result out of the stack array).
+func VerifSplitTopic(topic string) []string {
+	return append([]string(nil), splitTopic(topic)...)
+}
+
+// VerifStreamView is one entry of service.streams.
+type VerifStreamView struct {
+	StreamId uint32
+	Account  string
+	Total    int
+	BySpace  map[string][]string // spaceId -> sorted patterns (empty sets are kept, as in the map)
+}
+
+// VerifSpaceView is one entry of service.remote.
+type VerifSpaceView struct {
+	SpaceId   string
+	TrieLen   int
+	TrieEmpty bool
+}
+
+// VerifServing returns a snapshot of the serving-side interest bookkeeping.
+func VerifServing(svc Service) (spaces []VerifSpaceView, streams []VerifStreamView) {
+	s := svc.(*service)
+	s.remoteMu.Lock()
+	defer s.remoteMu.Unlock()
+	for id, si := range s.remote {
+		spaces = append(spaces, VerifSpaceView{SpaceId: id, TrieLen: si.trie.Len(), TrieEmpty: si.trie.root.empty()})
+	}
+	sort.Slice(spaces, func(i, j int) bool { return spaces[i].SpaceId < spaces[j].SpaceId })
+	for id, strm := range s.streams {
+		v := VerifStreamView{StreamId: id, Account: strm.account, Total: strm.total, BySpace: map[string][]string{}}
+		for sp, pats := range strm.bySpace {
+			l := make([]string, 0, len(pats))
+			for p := range pats {
+				l = append(l, p)
+			}
+			sort.Strings(l)
+			v.BySpace[sp] = l
+		}
+		streams = append(streams, v)
+	}
+	sort.Slice(streams, func(i, j int) bool { return streams[i].StreamId < streams[j].StreamId })
+	return
+}
+
+// VerifSpaceMatch runs Match on the serving-side trie of a space (nil if the space has no trie).
+func VerifSpaceMatch(svc Service, spaceId, topic string) []string {
+	s := svc.(*service)
+	s.remoteMu.Lock()
+	defer s.remoteMu.Unlock()
+	si := s.remote[spaceId]
+	if si == nil {
+		return nil
+	}
+	return si.trie.Match(topic, nil)
+}
+
+// VerifPool returns the service's private stream pool (for pool.Streams(tag)).
+func VerifPool(svc Service) streampool.StreamPool { return svc.(*service).pool }
+
+// VerifInterestTag exposes the "spaceId/pattern" tag encoding.
+func VerifInterestTag(spaceId, pattern string) string { return interestTag(spaceId, pattern) }
+
+// VerifSignData exposes publishSignData.
+func VerifSignData(p *pubsubproto.Publish) []byte { return publishSignData(p) }
+
+// VerifDedup wraps the real msgIdDedup ring.
+type VerifDedup struct{ d *msgIdDedup }
+
+func VerifNewDedup(size int) *VerifDedup   { return &VerifDedup{d: newMsgIdDedup(size)} }
+func (v *VerifDedup) Seen(id []byte) bool { return v.d.seen(id) }
